@@ -732,23 +732,13 @@ impl From<&AckFrame> for QuicFrame {
     fn from(frame: &AckFrame) -> Self {
         Self::Ack {
             ack_delay: Some(Duration::from_micros(frame.delay()).as_secs_f32() * 1000.0),
+            // see https://www.rfc-editor.org/rfc/rfc9000.html#name-ack-ranges
+            // (the iterator stops in front of a range that would reach below packet number 0:
+            // a malformed frame from the peer must not panic the logger)
             acked_ranges: frame
-                .ranges()
                 .iter()
-                .fold(
-                    (
-                        frame.largest() - frame.first_range(),
-                        vec![[frame.largest() - frame.first_range(), frame.largest()]],
-                    ),
-                    |(previous_smallest, mut acked_ranges), (gap, ack)| {
-                        // see https://www.rfc-editor.org/rfc/rfc9000.html#name-ack-ranges
-                        let largest = previous_smallest - gap.into_u64() - 2;
-                        let smallest = largest - ack.into_u64();
-                        acked_ranges.push([smallest, largest]);
-                        (smallest, acked_ranges)
-                    },
-                )
-                .1,
+                .map(|range| [*range.start(), *range.end()])
+                .collect(),
             ect1: frame.ecn().map(|ecn| ecn.ect1()),
             ect0: frame.ecn().map(|ecn| ecn.ect0()),
             ce: frame.ecn().map(|ecn| ecn.ce()),
